@@ -71,7 +71,7 @@ Delete(mn, mx) ==
 
 Reopen ==
   /\ Room /\ WithReopen
-  /\ hist # <<>> /\ hist[Len(hist)].op # "reopen"
+  /\ (IF hist = <<>> THEN TRUE ELSE hist[Len(hist)].op # "reopen")   \* also as the very first step
   /\ hist' = Append(hist, [op |-> "reopen"])
   /\ UNCHANGED <<log, kv, nc, nmut>>
 
